@@ -13,9 +13,11 @@ from ..worldgen import gen_put_world
 
 CFG = {"oracles": ("C05", "C01"), "violations": ("C05",), "profile": "mixed", "states": True}
 LEVEL_NOTE = ("theorems: every recorded state of the resolved-layer core (rename path) and of atomic_write satisfies the "
-              "invariant; the cross-device copy/delete phases of shutil.move are covered by the correspondence and the "
-              "oracle only; a kill is modelled as taking effect between two system calls (not power loss)")
-RULE = ("seeded random put worlds (as C01) with home-fallback worlds included; for each, every state before each mutating "
+              "invariant; C05Copy: the copy fallback of shutil.move (files, links, trees of any depth) keeps the source "
+              "whole or the destination whole in every crash state, under every fault oracle; a kill is modelled as "
+              "taking effect between two system calls (not power loss)")
+RULE = ("seeded random put worlds (as C01) plus forced cross-volume worlds (home fallback onto another volume: copy, then "
+        "delete, of files, links and directory trees); for each, every state before each mutating "
         "call and the final state is compared with the model's state sequence and checked against the Lean predicate "
         "C05.Holds; thorough: real kills at every call index of a sample")
 
@@ -34,13 +36,58 @@ def kill_task(task):
     return {"n": n, "bad": bad, "args": [repr(a) for a in world["args"]]}
 
 
+def fallback_world(rng):
+    """the move that cannot be a rename: an entry (file, link, directory tree) on a volume whose own trash directories
+    are unusable, trashed into the home trash of another volume by way of the home fallback - copy, then delete"""
+    from ..model import W, put_argv
+    from ..sandbox import MODEL_ROOT as R
+    from ..worldgen import make_entry
+    w = W()
+    uid = rng.choice([0, 1000])
+    home = w.dir(R + b"/home/u")
+    vol = w.mount(R + b"/vol1")
+    w.file(vol + b"/.Trash-%d" % uid, b"in the way")        # .Trash-$uid cannot be a directory, .Trash is absent
+    if rng.random() < 0.5:
+        w.file(vol + b"/.Trash", b"not a directory either")
+    d = w.dir(vol + b"/stuff")
+    name = rng.choice([b"f", b"a b", b"tree", b"caf\xc3\xa9"])
+    kind = make_entry(rng, w, d, name, rng.choice(["tree", "tree", "tree", "file", "link-dangling", "empty"]))
+    if kind == "tree" and rng.random() < 0.6:
+        w.file(d + b"/" + name + b"/deep/er/leaf", b"leaf")
+        w.file(d + b"/" + name + b"/zz-last", b"z")
+    if rng.random() < 0.4:
+        t = home + b"/.local/share/Trash"
+        w.dir(t, 0o700)
+        w.dir(t + b"/files", 0o700)
+        w.dir(t + b"/info", 0o700)
+        if rng.random() < 0.5:
+            w.file(t + b"/info/" + name + b".trashinfo", b"[Trash Info]\nPath=/x\nDeletionDate=2020-01-01T00:00:00\n", 0o600)
+            w.file(t + b"/files/" + name, b"older")
+    opts = {"homeFallback": True}
+    args = [d + b"/" + name]
+    world = w.world(env={"HOME": home, "TRASH_ENABLE_HOME_FALLBACK": b"1"}, uid=uid, cwd=home, cmd="put", opts=opts, args=args,
+                    stdin=None, randints=[3, 4, 5], meta=[{"class": "entry", "kind": kind, "spelling": "abs", "entry": args[0]}])
+    world["argv"] = put_argv(opts, args)
+    return world
+
+
+def fallback_task(task):
+    t = dict(task)
+    t["world"] = fallback_world(task_rng("C05f", task["seed"], task["i"]))
+    return eval_task(t)
+
+
 def run(tier, seed):
-    if tier == "quick":
-        return run_family("C05", tier, seed, CFG, 150, 0, LEVEL_NOTE, RULE)
     ck = Check("C05", tier, seed)
     info = audit("C05")
-    results = run_tasks(eval_task, [{"pid": "C05", "seed": seed, "i": i, "cfg": CFG} for i in range(2500)])
+    n, nf = (150, 40) if tier == "quick" else (2500, 600)
+    results = run_tasks(eval_task, [{"pid": "C05", "seed": seed, "i": i, "cfg": CFG} for i in range(n)])
     absorb(ck, "C05", results, CFG, "Model.Put")
+    absorb(ck, "C05", run_tasks(fallback_task, [{"pid": "C05", "seed": seed, "i": i, "cfg": CFG} for i in range(nf)]), CFG, "Model.Put")
+    if tier == "quick":
+        from ..putfamily import search_failing_input
+        search_failing_input(ck, "C05", seed, CFG, n, "Model.Put")
+        return ck.finish(info, LEVEL_NOTE, RULE)
     kills = run_tasks(kill_task, [{"seed": seed, "i": i} for i in range(120)])
     nk = 0
     for k in kills:
